@@ -115,6 +115,10 @@ func (core *JApiCore) addOperationID(d *directive.Directive) *jerr.JApiError {
 	return nil
 }
 
+func (core *JApiCore) addTags(d *directive.Directive) *jerr.JApiError {
+	return core.catalog.CheckTagsDirective(d)
+}
+
 func (core *JApiCore) addVersion(d *directive.Directive) *jerr.JApiError {
 	version := d.NamedParameter("Version")
 	if version == "" {
